@@ -17,6 +17,12 @@ RULE = ("Stations drawn as (lat, lon, alt) with mass at the poles, the equator a
         "another station's frame; masks drawn as tables, queried on and off their nodes over "
         "[-4 pi, 4 pi].")
 ASSUMPTIONS = [
+    "the (lat, lon, alt) argument is handed over as tuple / list / float64 array / int64 array / python ints / "
+    "mixed int-float (integer-valued degrees and metres), in the site facet also as float32 array (station "
+    "expected where the float32 numbers say, to 30 m: the library then computes in single precision); the "
+    "oracle is always fed float(lat), float(lon), float(alt)",
+    "site facet: the caller's list / array is not modified by create_station; changing it afterwards and "
+    "building a second station from it moves neither the first station nor misplaces the second",
     "a quarter of the topocentric / measures cases create their station under a name that another definition "
     "(other coordinates, the same coordinates, or only another mask) held before - supported by the library, which "
     "logs 'already registered. Overriding'; everything is checked against the oracle for the current definition",
@@ -67,7 +73,46 @@ def _forget(name):
         pass
 
 
-def station(shard, lat, lon, alt, mask=None, mask_as="list", redef=None):
+_args = {}  # station name -> [object handed to create_station, snapshot of it, still pristine?]
+
+
+def latlonalt_arg(lat, lon, alt, arg):
+    """The (latitude, longitude, altitude) argument in the container / number types the case asks for:
+    arg = dict(container = tuple | list | f64 | i64 | f32, ints = [bool] * 3 -> python ints)."""
+    arg = arg or {}
+    vals = [lat, lon, alt]
+    ints = arg.get("ints") or [False, False, False]
+    kind = arg.get("container", "tuple")
+    if kind == "i64":
+        ints = [True, True, True]
+    for v, i in zip(vals, ints):
+        if i and float(v) != int(v):
+            raise ValueError("generator: an integer argument must be integer-valued")
+    items = [int(v) if i else float(v) for v, i in zip(vals, ints)]
+    if kind == "tuple":
+        return tuple(items)
+    if kind == "list":
+        return list(items)
+    if kind == "f64":
+        return np.array(vals, dtype=np.float64)
+    if kind == "i64":
+        return np.array(items, dtype=np.int64)
+    if kind == "f32":
+        return np.array(vals, dtype=np.float32)
+    raise ValueError(kind)
+
+
+def snapshot(obj):
+    return obj.copy() if isinstance(obj, np.ndarray) else type(obj)(obj)
+
+
+def same_object_state(obj, snap):
+    if isinstance(obj, np.ndarray):
+        return obj.dtype == snap.dtype and np.array_equal(obj, snap)
+    return type(obj) is type(snap) and list(obj) == list(snap) and all(type(a) is type(b) for a, b in zip(obj, snap))
+
+
+def station(shard, lat, lon, alt, mask=None, mask_as="list", redef=None, arg=None, given=None):
     """create_station under a name never used before in this process; identical requests
     share the frame; at most MAX_LIVE names stay registered.
 
@@ -77,7 +122,8 @@ def station(shard, lat, lon, alt, mask=None, mask_as="list", redef=None):
     "already registered. Overriding"); the frame returned by the last call is the one checked."""
     from beyond.frames.stations import create_station
 
-    key = (lat, lon, alt, json.dumps(mask), mask_as, json.dumps(redef, sort_keys=True))
+    key = (lat, lon, alt, json.dumps(mask), mask_as, json.dumps(redef, sort_keys=True),
+           json.dumps(arg, sort_keys=True), id(given) if given is not None else None)
     if key in _cache:
         return _cache[key]
     while len(_cache) >= MAX_LIVE:
@@ -99,7 +145,9 @@ def station(shard, lat, lon, alt, mask=None, mask_as="list", redef=None):
                     sv = StateVector([7e6, 1e6, -2e6, 10.0, 20.0, 30.0], Date(50000, 1000.0), "cartesian", "ITRF")
                     sv.copy(frame=old, form="spherical")
                     StateVector([1e3, 2e3, 3e3, 0, 0, 0], Date(50000, 1000.0), "cartesian", old).copy(frame="ITRF")
-        frame = create_station(name, (lat, lon, alt), mask=m)
+        obj = given if given is not None else latlonalt_arg(lat, lon, alt, arg)
+        _args[name] = [obj, snapshot(obj), True]
+        frame = create_station(name, obj, mask=m)
     except BaseException:
         _forget(name)
         raise
@@ -177,7 +225,29 @@ def geodetic(draw, shard=0):
     lon = (lon + 180.0 + 135.0 * ((h // 2) % 4)) % 540.0 - 180.0
     if lon > 359.999:
         lon -= 360.0
-    return dict(lat=lat, lon=lon, alt=draw(st.one_of(go.uniform(-400.0, 9000.0), f(-400.0, 9000.0))))
+    g = dict(lat=lat, lon=lon, alt=draw(st.one_of(go.uniform(-400.0, 9000.0), f(-400.0, 9000.0))))
+    # how the three numbers are handed over: the container and the number types are inputs too
+    mode = (draw(st.integers(0, 11)) + shard) % 12
+    if mode < 4:
+        return g
+    if mode == 4:
+        g["arg"] = dict(container="list")
+    elif mode == 5:
+        g["arg"] = dict(container="f64")
+    else:
+        # integer-valued degrees / metres, as python ints or in an integer array, or mixed with floats
+        whole = [True, True, True] if mode in (6, 7, 8) else [draw(st.booleans()) for _ in range(3)]
+        if whole[0]:
+            g["lat"] = float(max(-89, min(89, round(g["lat"]))))
+        if whole[1]:
+            g["lon"] = float(max(-180, min(359, round(g["lon"]))))
+        if whole[2]:
+            g["alt"] = float(round(g["alt"]))
+        if mode == 8:
+            g["arg"] = dict(container="i64")
+        else:
+            g["arg"] = dict(container=draw(st.sampled_from(["tuple", "list"])), ints=whole)
+    return g
 
 
 @st.composite
@@ -268,7 +338,18 @@ def topo_case(draw, shard, tier):
 
 @st.composite
 def site_case(draw, shard, tier):
-    return dict(shard=shard, site=draw(geodetic(shard)), date=draw(date(shard)),
+    site = draw(geodetic(shard))
+    k = draw(st.integers(0, 9))
+    if k == 7:
+        site["arg"] = dict(container="f32")
+    reuse = None
+    if site.get("arg", {}).get("container") in ("list", "f64", "i64") and k < 6:
+        # the caller changes his own array afterwards and builds another station from it
+        reuse = draw(geodetic(shard + 5))
+        if site["arg"]["container"] == "i64" or any(site["arg"].get("ints") or []):
+            reuse = dict(lat=float(round(reuse["lat"])), lon=float(round(reuse["lon"])), alt=float(round(reuse["alt"])))
+        reuse.pop("arg", None)
+    return dict(shard=shard, site=site, date=draw(date(shard)), reuse=reuse,
                 probe=[draw(go.uniform(-1e5, 1e5)) for _ in range(3)])
 
 
@@ -442,17 +523,57 @@ def date_classes(d):
 def check_site(case):
     from beyond.orbits import StateVector
 
-    g = case["site"]
-    fr = station(case["shard"], g["lat"], g["lon"], g["alt"])
+    g = dict(case["site"])
+    arg = g.get("arg")
+    kind = (arg or {}).get("container", "tuple")
+    fr = station(case["shard"], g["lat"], g["lon"], g["alt"], arg=arg)
+    if kind == "f32":
+        # the station is where the *float32* numbers say (the library then works in single precision)
+        for k_ in ("lat", "lon", "alt"):
+            g[k_] = float(np.float32(g[k_]))
     dt = mkdate(case["date"])
     site, (east, north, up) = site_of(g["lat"], g["lon"], g["alt"])
     worst = 0.0
+    arg_cls = ["arg:" + kind + ("+ints" if any((arg or {}).get("ints") or []) else "")]
+
+    # the caller's object: not modified by create_station, and no longer connected to the station
+    obj, snap, pristine = _args[fr.name]
+    if pristine and not same_object_state(obj, snap):
+        raise Violation("argument-modified", f"create_station changed the caller's {type(obj).__name__}: {obj!r}, was {snap!r}")
+    second = None
+    if pristine and case.get("reuse") and kind in ("list", "f64", "i64"):
+        r = case["reuse"]
+        new = [r["lat"], r["lon"], r["alt"]]
+        for k_ in range(3):
+            obj[k_] = type(snap[k_])(new[k_]) if not isinstance(obj, np.ndarray) else new[k_]
+        second = station(case["shard"], r["lat"], r["lon"], r["alt"], given=obj)
+        arg_cls.append("array-reused")
+    _args[fr.name][2] = False
 
     lla = fr.latlonalt
     want = (math.radians(g["lat"]), math.radians(g["lon"]), g["alt"])
+    rel = 1e-6 if kind == "f32" else 1e-14
     for k in range(3):
-        if abs(float(lla[k]) - want[k]) > 1e-14 * max(1.0, abs(want[k])):
-            raise Violation("latlonalt", f"station.latlonalt = {list(map(float, lla))}, created with {want}")
+        if not abs(float(lla[k]) - want[k]) <= rel * max(1.0, abs(want[k])):
+            raise Violation("latlonalt", f"station.latlonalt = {list(map(float, lla))}, created with {want} "
+                                         f"(given as {kind})")
+    if second is not None:
+        from beyond.orbits import StateVector as SV
+
+        s2, _ = site_of(r["lat"], r["lon"], r["alt"])
+        o2 = np.asarray(SV([0.0] * 6, dt, "cartesian", second).copy(frame="ITRF").base, float)
+        d2 = float(np.linalg.norm(o2[:3] - s2))
+        if d2 > 1e-6:
+            raise Violation("site-position", f"second station built from the caller's re-used {kind} is {d2:.3g} m "
+                                             f"from where WGS-84 puts ({r['lat']}, {r['lon']}, {r['alt']})")
+    if kind == "f32":
+        from beyond.orbits import StateVector as SV
+
+        o = np.asarray(SV([0.0] * 6, dt, "cartesian", fr).copy(frame="ITRF").base, float)
+        d = float(np.linalg.norm(o[:3] - site))
+        if not d <= 30.0:  # single-precision arithmetic on 6.4e6 m: metres
+            raise Violation("site-position", f"station given as float32: origin {d:.3g} m from WGS-84 of the float32 values")
+        return dict(nt=abs(g["lat"]) > 1.0, cls=arg_cls, ratio=d / 30.0)
 
     zero = StateVector([0.0] * 6, dt, "cartesian", fr)
     fixed = np.asarray(zero.copy(frame="ITRF").base, float)
@@ -513,8 +634,8 @@ def check_site(case):
                         f"station velocity in EME2000 is {math.atan2(sinang, cosang):.3g} rad away from east")
     if abs(float(np.linalg.norm(inert[:3])) - float(np.linalg.norm(site))) > 1e-6:
         raise Violation("site-position", "geocentric distance of the station differs between ITRF and EME2000")
-    return dict(nt=abs(g["lat"]) > 1.0, cls=site_classes(g) + date_classes(case["date"]) + [f"eop:{eop_name()}"],
-                ratio=worst)
+    return dict(nt=abs(g["lat"]) > 1.0,
+                cls=site_classes(g) + date_classes(case["date"]) + [f"eop:{eop_name()}"] + arg_cls, ratio=worst)
 
 
 # ----------------------------------------------------------------- facet: topocentric
@@ -523,8 +644,11 @@ def check_site(case):
 def redefined_station(case):
     """The station of the case; when the case says so its name was held by another definition before."""
     g = case["site"]
-    fr = station(case["shard"], g["lat"], g["lon"], g["alt"], mask=case.get("mask"), redef=case.get("redef"))
+    fr = station(case["shard"], g["lat"], g["lon"], g["alt"], mask=case.get("mask"), redef=case.get("redef"),
+                 arg=g.get("arg"))
     cls = []
+    if g.get("arg"):
+        cls.append("arg:" + g["arg"]["container"] + ("+ints" if any(g["arg"].get("ints") or []) else ""))
     if case.get("redef"):
         cls.append("redefined:" + case["redef"]["kind"] + ("+used" if case["redef"].get("use") else ""))
         lla = fr.latlonalt
@@ -544,7 +668,7 @@ def check_topocentric(case):
     g = case["site"]
     fr, redef_cls = redefined_station(case)
     other = case.get("other")
-    other_fr = station(case["shard"], other["lat"], other["lon"], other["alt"]) if other else None
+    other_fr = station(case["shard"], other["lat"], other["lon"], other["alt"], arg=other.get("arg")) if other else None
     dt = mkdate(case["date"])
     site, triad = site_of(g["lat"], g["lon"], g["alt"])
     worst = 0.0
@@ -631,7 +755,7 @@ def check_mask(case):
         fr = _base["fr"]
         fr.mask = np.array([azs, els], dtype=float)
     else:
-        fr = station(case["shard"], g["lat"], g["lon"], g["alt"], mask=[azs, els], mask_as=how)
+        fr = station(case["shard"], g["lat"], g["lon"], g["alt"], mask=[azs, els], mask_as=how, arg=g.get("arg"))
     xs, ys = list(azs), list(els)
     if xs[0] > 0.0:
         xs.insert(0, 0.0)
